@@ -331,7 +331,16 @@ where
     M::Terminal: crate::AsciiDisplay,
 {
     writeln!(file, ".ver {}", settings.version)?;
-    let ascii = settings.ascii || !ExportSettings::binary_supported(manager);
+    let ascii = settings.ascii || !ExportSettings::binary_supported(manager) || {
+        // Binary mode has no means to describe terminals: The importer assumes
+        // that the unique terminal is `T`.
+        let mut all_t = true;
+        for t in manager.terminals() {
+            all_t &= Ascii(manager.get_node(&t).unwrap_terminal()).to_string() == "T";
+            manager.drop_edge(t);
+        }
+        !all_t
+    };
     writeln!(file, ".mode {}", if ascii { 'A' } else { 'B' })?;
 
     // TODO: other .varinfo modes?
